@@ -10,6 +10,7 @@ from __future__ import annotations
 
 import builtins as B
 import collections
+import dataclasses
 import collections.abc
 import datetime
 import decimal
@@ -558,6 +559,66 @@ def signature_helper_obligations(chk):
     clear_typelib_caches()
     chk.add(Ob(f"{INSP}.typed_dict_signature", "one-keyword-only-parameter-per-key-required-exactly-for-the-required-keys", "ground", [],
                z3.BoolVal(not bad), {"bad": bad}))
+    # tuple_signature: one positional-only parameter per declared member, annotated with the member type (typing.get_args order);
+    # a bare or variadic tuple has a single *args parameter annotated with the member type (Any for a bare tuple)
+    bad = []
+    fixed = [tuple[int, str], tuple[int], typing.Tuple[int, str, float], tuple[int, list[str], None], tuple[typing.Optional[int], int]]
+    variadic = [(tuple, typing.Any), (typing.Tuple, typing.Any), (tuple[int, ...], int), (typing.Tuple[str, ...], str), (tuple[list[int], ...], list[int])]
+    for t in fixed:
+        clear_typelib_caches()
+        try:
+            sig = inspection.tuple_signature(t)
+        except Exception as e:
+            bad.append(f"tuple_signature({t}) raised {e!r}")
+            continue
+        ps = list(sig.parameters.values())
+        if [p.annotation for p in ps] != list(typing.get_args(t)) or any(p.kind is not _inspect.Parameter.POSITIONAL_ONLY for p in ps) \
+                or len({p.name for p in ps}) != len(ps):
+            bad.append(f"tuple_signature({t}) = {sig}")
+    for t, member in variadic:
+        clear_typelib_caches()
+        try:
+            sig = inspection.tuple_signature(t)
+        except Exception as e:
+            bad.append(f"tuple_signature({t}) raised {e!r}")
+            continue
+        ps = list(sig.parameters.values())
+        if len(ps) != 1 or ps[0].kind is not _inspect.Parameter.VAR_POSITIONAL or ps[0].annotation != member:
+            bad.append(f"tuple_signature({t}) = {sig}, expected one *args parameter annotated {member}")
+    clear_typelib_caches()
+    chk.add(Ob(f"{INSP}.tuple_signature", "one-positional-only-parameter-per-member-or-one-variadic-parameter", "ground", [],
+               z3.BoolVal(not bad), {"bad": bad, "annotations": len(fixed) + len(variadic)}))
+
+
+def type_hints_obligations(chk):
+    """inspection.get_type_hints(obj): typing.get_type_hints(obj) without the dataclass KW_ONLY sentinel (for a parameterised user
+    generic: of the class it was subscripted from); {} where typing raises NameError / TypeError; and, only when that is empty and
+    `exhaustive`, the parameters of the signature (unannotated -> Any).  Ground, real function, cold caches; C05 / C09 / C18 take
+    this function by contract."""
+    import dataclasses
+    import inspect as _inspect
+    from typelib.py import inspection
+    from props.concrete_util import clear_typelib_caches
+    from props.c17_fixtures import DC, KW, NT, TD, CV, Box, Init, Unresolvable, fn
+    bad = []
+
+    def expect(label, got, want):
+        if got != want or list(got) != list(want):
+            bad.append(f"{label}: {got!r}, expected {want!r}")
+    for obj in (DC, NT, TD, CV, fn):
+        clear_typelib_caches()
+        expect(f"get_type_hints({obj.__name__})", inspection.get_type_hints(obj), typing.get_type_hints(obj))
+        expect(f"get_type_hints({obj.__name__}, exhaustive=False)", inspection.get_type_hints(obj, exhaustive=False), typing.get_type_hints(obj))
+    clear_typelib_caches()
+    expect("get_type_hints(KW)", inspection.get_type_hints(KW), {k: v for k, v in typing.get_type_hints(KW).items() if v is not dataclasses.KW_ONLY})
+    expect("get_type_hints(Box[int])", inspection.get_type_hints(Box[int]), typing.get_type_hints(Box))
+    expect("get_type_hints(Init)", inspection.get_type_hints(Init), {"p": int, "q": typing.Any})
+    expect("get_type_hints(Init, exhaustive=False)", inspection.get_type_hints(Init, exhaustive=False), {})
+    expect("get_type_hints(Unresolvable, exhaustive=False)", inspection.get_type_hints(Unresolvable, exhaustive=False), {})
+    expect("get_type_hints(int, exhaustive=False)", inspection.get_type_hints(int, exhaustive=False), {})
+    clear_typelib_caches()
+    chk.add(Ob(f"{INSP}.get_type_hints", "typing's-own-hints-without-KW_ONLY-else-the-signature's-parameters-when-exhaustive", "ground", [],
+               z3.BoolVal(not bad), {"bad": bad}))
 
 
 def composed_predicates(chk):
@@ -635,6 +696,7 @@ def composed_predicates(chk):
 def obligations(chk):          # noqa: F811
     composed_predicates(chk)
     value_predicate_obligations(chk)
+    type_hints_obligations(chk)
     signature_helper_obligations(chk)
     instance_predicate_obligations(chk)
     class_predicates(chk)
